@@ -409,6 +409,12 @@ impl<'gc, 'r> Env<'gc, 'r> {
                 blocks = obs::capture_off();
                 r = Ref::P(g);
             }
+            Kind::HSl => {
+                obs::capture_on();
+                let g = gc_arena::GcSliceBuilder::<Hdr>::new(1).write_slice_with(mc, |_| Hdr { tok: Tok::new(arena, id), probe: Probe { arena, id }, pattern: pattern_for(id) });
+                blocks = obs::capture_off();
+                r = Ref::HSl(g);
+            }
             Kind::NT => {
                 let v = NtNode { tok: Tok::new(arena, id), probe: Probe { arena, id }, pattern: pattern_for(id) };
                 obs::capture_on();
